@@ -136,7 +136,7 @@ def run(ctx, rep):
                     else:
                         generator._generate_sample(['ns'], output_file=out, exclude_deprecated=excl)
                         generator._generate_sample(['ns'], output_file=outj, output_format='json')
-            except Exception as ex:       # every constructible default must be stated: generation may not fail
+            except (Exception, SystemExit) as ex:       # every constructible default must be stated: generation may not fail
                 rep.fail('c17crash:%r' % [(s['name'], s['check_str']) for s in specs],
                          'generating the sample for %r (exclude_deprecated=%s) raises %s: %s'
                          % ([(s['name'], s['check_str'], s['removal'], s['deprecated']) for s in specs], excl,
